@@ -360,7 +360,10 @@ def concrete_playback(pkg, h, src, env):
         p = subprocess.run(cmd, cwd=src, env=env, capture_output=True, text=True, timeout=900)
     except subprocess.TimeoutExpired:
         return None
-    out = p.stdout
+    return parse_playback(p.stdout)
+
+
+def parse_playback(out):
     tests = []
     for m in re.finditer(r"/// Check for `(\w+)`: (.*?)\n.*?let concrete_vals: Vec<Vec<u8>> = vec!\[(.*?)\n\s*\];", out, re.S):
         vals = []
